@@ -265,3 +265,16 @@ Example C11_ex_options_raise :
   resolve (Some [(K_latex, VNum 5)]) = ORaise OTypeError /\
   resolve (Some [(K_direction, VStr (s2n "north"))]) = ORaise OTypeError.
 Proof. vm_compute. repeat split. Qed.
+
+(* ---------- the whole export from the caller's raw arguments ------------------------------
+   export_docs (Render/PipelineOptions.v) = resolve (option dictionaries) ; timeline_docs
+   (axis ; engine ; both emitters).  For options None / {} / any documented subset and data
+   in the documented domain of the scale the options select, both documents are produced. *)
+From Labella Require Import Render.Pipeline Render.PipelineOptions.
+Theorem C11_export_total : forall user data dom today,
+  (match user with Some u => user_ok u | None => True end) ->
+  (forall r, raw_of_user user data dom today = OOk r -> doc_domain (ri_axis r)) ->
+  exists r s, raw_of_user user data dom today = OOk r /\
+              export_docs user data dom today = OOk (AOk (svg_doc_of s, tikz_doc_of s)).
+Proof. exact export_total. Qed.
+Print Assumptions C11_export_total.
